@@ -189,10 +189,22 @@ def pot_params(name, p, sigma):
 
 
 def make_potential(desc, sigma_eff):
+    """desc = [name, params] or [name, params, explicit sigma]"""
     P = target()
     name, p = desc[0], desc[1]
-    q = pot_params(name, p, sigma_eff)
+    explicit = desc[2] if len(desc) > 2 else None
+    q = pot_params(name, p, explicit if explicit is not None else sigma_eff)
+    if explicit is not None:
+        q['sigma'] = explicit
     return getattr(P.potential, name)(**q)
+
+
+def potential_sigma(spec, i, j):
+    """contact distance the potential of pair (i,j) uses: explicit if given, else the mean diameter"""
+    desc = spec['potential'][key(i, j)]
+    if len(desc) > 2 and desc[2] is not None:
+        return float(desc[2])
+    return (spec['dia'][i] + spec['dia'][j]) / 2.0
 
 
 CLOSURE_CLASS = {'PY': 'PercusYevick', 'HNC': 'HyperNettedChain', 'MSA': 'MeanSphericalApproximation', 'MS': 'MartynovSarkisov'}
@@ -351,9 +363,10 @@ def reference(spec, scale=1.0):
         Om[:, i, j] = Om[:, j, i] = w * site[i, j]
         Om_tol[:, i, j] = Om_tol[:, j, i] = omega_tol(spec['omega'][kk], k) * site[i, j]
         name, p = spec['potential'][kk][0], spec['potential'][kk][1]
-        q = pot_params(name, p, sigma[i, j])
+        ps = potential_sigma(spec, i, j)
+        q = pot_params(name, p, ps)
         q.setdefault('high_value', 1e6)
-        val, jd = O.potential(name, q, r, sigma[i, j])
+        val, jd = O.potential(name, q, r, ps)
         u[:, i, j] = u[:, j, i] = val / spec['kT']
         judged[:, i, j] = judged[:, j, i] = jd
     return {'n': n, 'r': r, 'k': k, 'dr': dr, 'dk': dk, 'rho': rho, 'site': site, 'pair': pair, 'sigma': sigma,
